@@ -132,7 +132,8 @@ theorem derive_spec (c : Cfg) (d : Dir) (T : Table) (E : Nat) (hm : SMatch d.sta
   | (u, v) :: rest, htot => by
     obtain ⟨els', h1, h2, h3⟩ := derive_spec c d T E hm hv hE hlen rest
       (fun x hx => htot x (List.mem_cons_of_mem _ hx))
-    have htu := htot (u, v) List.mem_cons_self
+    have htu : ∀ f ver, 1 ≤ ver → ver ≤ (T.get u).length + 1 → (d.vrf.get? ⟨u, f, ver⟩).isSome :=
+      htot (u, v) List.mem_cons_self
     rw [Dir.deriveUpdates]
     simp only [h1, bind, Except.bind, pure, Except.pure]
     cases hl : (T.get u).getLast? with
@@ -148,7 +149,7 @@ theorem derive_spec (c : Cfg) (d : Dir) (T : Table) (E : Nat) (hm : SMatch d.sta
         simp [mkState, hnil, hl1]
       · simp only [List.filter_cons, hch, if_true, List.flatMap_cons, ← h2]
         simp [C01.newLeaves, delta, staleNew, freshNew, hnil, hl1]
-      · simp [List.filter_cons, hch]
+      · simp [hch]
     | some last =>
       obtain ⟨st, hst, _, hsv, hsval, _⟩ := stateLeq_some d T E hm u (hv u) (hE u) last hl
       have hlv := versOK_last (hv u) hl
@@ -158,9 +159,9 @@ theorem derive_spec (c : Cfg) (d : Dir) (T : Table) (E : Nat) (hm : SMatch d.sta
       · have hch : isChange T (u, v) = false := by simp [isChange, hl, ← hsval, hval]
         rw [if_pos hval]
         refine ⟨els', ?_, ?_, ?_⟩
-        · simp [List.filter_cons, hch]
-        · simp [List.filter_cons, hch, h2]
-        · simp [List.filter_cons, hch, h3]
+        · simp [hch]
+        · simp [hch, h2]
+        · simp [hch, h3]
       · have hch : isChange T (u, v) = true := by simp [isChange, hl, ← hsval, hval]
         rw [if_neg hval]
         have hpos : 1 ≤ (T.get u).length := by
@@ -181,7 +182,7 @@ theorem derive_spec (c : Cfg) (d : Dir) (T : Table) (E : Nat) (hm : SMatch d.sta
           rw [hsv, hlv] at hls hlf
           have hne : (T.get u).length ≠ 0 := by omega
           simp [C01.newLeaves, delta, staleNew, freshNew, hls, hlf, hne, hsv, hlv]
-        · simp [List.filter_cons, hch]
+        · simp [hch]
 
 /-! ### `setState` -/
 
